@@ -93,7 +93,6 @@ class Sym:
     """symbolic number"""
 
     __slots__ = ("e",)
-    __array_priority__ = 10000
 
     def __init__(self, e):
         self.e = e
